@@ -51,6 +51,9 @@ type chunkedBodyWriter struct {
 func (c *chunkedBodyWriter) Write(p []byte) (n int, err error) {
 	if !c.wroteHeader {
 		c.r.Header.SetContentLength(-1)
+		if c.r.MustClose() {
+			c.r.Header.SetConnectionClose(true)
+		}
 		if err = WriteHeader(&c.r.Header, c.w); err != nil {
 			return
 		}
@@ -77,6 +80,9 @@ func (c *chunkedBodyWriter) Finalize() error {
 		// in case no actual data from user
 		if !c.wroteHeader {
 			c.r.Header.SetContentLength(-1)
+			if c.r.MustClose() {
+				c.r.Header.SetConnectionClose(true)
+			}
 			if c.finalizeErr = WriteHeader(&c.r.Header, c.w); c.finalizeErr != nil {
 				return
 			}
